@@ -408,6 +408,15 @@ def _check(args):
             if r_.get("type", "").startswith(("begin group", "begin repeat")) and rb.random() < 0.7:
                 for k_ in [k_ for k_ in r_ if k_.startswith(("label", "media", "image", "audio", "video", "big-image", "hint"))]:
                     del r_[k_]
+    commas = False
+    if i % 6 == 0:
+        # a Markdown text holding enough commas to look like CSV to a reader that only counts them: delivered untyped it is still Markdown
+        rc_ = rng_for(seed, PID, "commas", i)
+        cands_ = [(r_, k_) for r_ in form["survey"] for k_ in r_ if k_.startswith(("label", "hint")) and "${" not in r_[k_]]
+        if cands_:
+            r_, k_ = rc_.choice(cands_)
+            r_[k_] = rc_.choice(["red, green, blue, black, white", "a,b,c,d,e,f", "Yes, no, maybe, never, always, often"])
+            commas = True
     multiline = False
     pipes = False
     if i % 4 == 3:
@@ -483,7 +492,7 @@ def _check(args):
         variants += [("xls/fake", lambda: convert_xls_fake(gr, typed_cells))]
         if multiline:
             variants = [v for v in variants if not v[0].startswith("md")]
-        chosen = (variants[:3] if pipes else []) + rng.sample(variants, 6) + [variants[-1]]
+        chosen = (variants[:3] if pipes else []) + ([v for v in variants if v[0] in ("md/str", "md/bytes", "md/BytesIO")] if commas and not multiline else []) + rng.sample(variants, 6) + [variants[-1]]
         for name, fn in chosen:
             try:
                 r = fn()
